@@ -446,12 +446,13 @@ class Evaluator:
                 seq = self.ev(g.iter)
                 if isinstance(seq, Record) and callable(seq.fields.get("__iter__")):
                     seq = seq.fields["__iter__"]()
-                if not isinstance(seq, (list, tuple)):
+                seq = _as_iterable(seq)
+                if seq is None:
                     raise Unsupported("comprehension over a non-sequence")
                 saved = self.env.get(g.target.id, _MISSING)
                 result = fn.id == "all"
                 try:
-                    for item in list(seq):
+                    for item in (seq if isinstance(seq, PyIter) else list(seq)):
                         self.env[g.target.id] = item
                         if not all(self.truth(self.ev(c)) for c in g.ifs):
                             continue
@@ -747,6 +748,15 @@ class Evaluator:
                         continue
                 if not broke:
                     self._block(st.orelse)
+            elif isinstance(st, ast.With) and len(st.items) == 1 and isinstance(st.items[0].context_expr, ast.Call) and ast.unparse(st.items[0].context_expr.func).split(".")[-1] == "suppress":
+                # contextlib.suppress(E1, E2, ...): an exception of one of these classes raised in the body ends the body and is
+                # dropped; the statements after the `with` run next
+                names = [ast.unparse(a).split(".")[-1] for a in st.items[0].context_expr.args]
+                try:
+                    self._block(st.body)
+                except PyRaise as pe:
+                    if not ("Exception" in names or "BaseException" in names or any(a in names for a in _exc_ancestors(pe.name))):
+                        raise
             elif isinstance(st, ast.With):
                 for it in st.items:
                     v = self.ev(it.context_expr)
